@@ -9,6 +9,6 @@ PROPS="$@"; [ -z "$PROPS" ] && PROPS=${S%%-*}
 for P in $PROPS; do
   out=$(PYVC_REPO_SRC=$D/src python3-vt /verif/pyvc/check.py $P --no-evidence 2>&1); rc=$?
   echo "== $S on $P: exit=$rc"
-  echo "$out" | grep -E "VIOLATION|CHECKER-ERROR|UNDECIDED|KNOWN" | head -4
+  echo "$out" | grep -E "VIOLATION|CHECKER-ERROR|UNDECIDED|KNOWN" | head -8
 done
 rm -rf $D
